@@ -153,18 +153,20 @@ func (e *Engine) NonIncrementallySearching() (searching, forward, substring bool
 }
 
 func (e *Engine) updateIncrementalSearch() {
-	var regexStr string
-	if hasUpper(*e.isearchBuf) {
-		regexStr = string(*e.isearchBuf)
-	} else {
-		regexStr = "(?i)" + string(*e.isearchBuf)
+	var flags, regexStr string
+	if !hasUpper(*e.isearchBuf) {
+		flags = "(?i)"
 	}
+
+	regexStr = flags + string(*e.isearchBuf)
 
 	var err error
 
+	// A text that is not a regular expression (an unclosed parenthesis…)
+	// is searched for as it is, rather than not searched for at all.
 	e.IsearchRegex, err = regexp.Compile(regexStr)
 	if err != nil {
-		e.hint.Set(color.FgRed + "Failed to compile i-search regexp")
+		e.IsearchRegex = regexp.MustCompile(flags + regexp.QuoteMeta(string(*e.isearchBuf)))
 	}
 
 	// Refresh completions with the current minibuffer as a filter.
